@@ -367,6 +367,8 @@ impl MqttState {
 
         self.inflight -= 1;
 
+        // a failure reason ends the flow of this packet id just like a success does:
+        // a publish waiting for the id can take it over
         if puback.reason != PubAckReason::Success
             && puback.reason != PubAckReason::NoMatchingSubscribers
         {
@@ -374,7 +376,6 @@ impl MqttState {
                 "PubAck Pkid = {:?}, reason: {:?}",
                 puback.pkid, puback.reason
             );
-            return Ok(None);
         }
 
         if let Some(publish) = self.check_collision(puback.pkid) {
@@ -410,7 +411,21 @@ impl MqttState {
                 "PubRec Pkid = {:?}, reason: {:?}",
                 pubrec.pkid, pubrec.reason
             );
-            return Ok(None);
+            // the broker refused the publish: the flow ends here, no PUBCOMP will ever
+            // give the window slot back, and a publish waiting for the id can take it over
+            self.inflight -= 1;
+            let outgoing = self.check_collision(pubrec.pkid).map(|publish| {
+                self.outgoing_pub[publish.pkid as usize] = Some(publish.clone());
+                self.inflight += 1;
+
+                let pkid = publish.pkid;
+                let event = Event::Outgoing(Outgoing::Publish(pkid));
+                self.events.push_back(event);
+                self.collision_ping_count = 0;
+
+                Packet::Publish(publish)
+            });
+            return Ok(outgoing);
         }
 
         // NOTE: Inflight - 1 for qos2 in comp
@@ -449,12 +464,13 @@ impl MqttState {
         }
         self.outgoing_rel.set(pubcomp.pkid as usize, false);
 
+        // with a failure reason the flow is over as well: the window slot is given back
+        // and a publish waiting for the id can take it over
         if pubcomp.reason != PubCompReason::Success {
             warn!(
                 "PubComp Pkid = {:?}, reason: {:?}",
                 pubcomp.pkid, pubcomp.reason
             );
-            return Ok(None);
         }
 
         self.inflight -= 1;
